@@ -404,6 +404,33 @@ def run(ctx) -> None:
         res.case(("scalar-cli-wins", key))
         if got != want:
             res.violate(f"{key}: config {cfgv!r} + command line {argv} gives {got!r}, the command line should win", {"kind": "scalar-cli-wins", "key": key}, {"config": {key: cfgv}, "argv": argv, "got": got, "want": want})
+    # "boolean options are or-ed": a switch the config file already sets changes nothing when it is given (first) on the
+    # command line as well — whatever lists the two sides carry.  Checked on the implementation alone.
+    bool_flags = {"quiet": "--quiet", "verbose": "--verbose", "enable_all": "--enable-all", "disable_all": "--disable-all"}
+    codes = ["FURB100", "FURB105", "FURB109", "FURB120", "FURB123", "#pathlib", "#readability"]
+    for _ in range(150 if ctx.quick else 2000):
+        key = rng.choice(list(bool_flags))
+        cfg: dict[str, Any] = {key: True}
+        for lk in ("enable", "disable", "ignore", "load"):
+            if rng.random() < 0.6:
+                cfg[lk] = rng.sample(codes, rng.randint(1, 3)) if lk != "load" else rng.sample(["m1", "m2", "m3"], rng.randint(1, 2))
+        argv: list[str] = ["a.py"]
+        for opt in ("--enable", "--disable", "--ignore", "--load"):
+            for _k in range(rng.randint(0, 2)):
+                argv += [opt, rng.choice(codes) if opt != "--load" else rng.choice(["m1", "m4"])]
+        res.case(("redundant-switch", key, json.dumps(cfg, sort_keys=True), tuple(argv)))
+        try:
+            a = merged(cfg, argv)
+            b = merged(cfg, [bool_flags[key], *argv])
+        except ValueError:
+            continue  # enable_all + disable_all together: refused, covered elsewhere
+        if a != b:
+            res.violate(
+                f"`{key} = true` in [tool.refurb]: giving {bool_flags[key]} on the command line as well changes the settings",
+                {"kind": "redundant-switch", "key": key},
+                {"config": cfg, "argv_without": argv, "argv_with": [bool_flags[key], *argv], "differs": {k: (a[k], b[k]) for k in a if a[k] != b[k]},
+                 "how": "Settings.merge(parse_config_file(toml), parse_command_line_args(argv)) for both argument vectors"},
+            )
     # files interleaved among options
     opt_groups = [["--quiet"], ["--enable", "FURB120"], ["--ignore", "100"], ["--python-version", "3.9"], ["--load", "m"], ["--disable-all"], ["--format", "github"]]
     for _ in range(60 if ctx.quick else 600):
